@@ -10,7 +10,7 @@ import numpy as np
 import z3
 
 from symx.core import SReal, assume, explore, mfloat, mval, real, reals, rv
-from symx.ext_c15 import ContractBudget, SolveIvpContract, pin_scipy
+from symx.ext_c15 import ContractBudget, SolveIvpContract, pin_scipy, sym_max
 from symx.runner import Ob
 from symx.stubs import shadow, sym_zeros
 
@@ -55,7 +55,7 @@ ENCODED = [
 RES_D = 1e-15  # numpy.finfo(float).resolution (a double, slightly above 10^-15), the threshold inside fpe_equals
 ETA = Fraction(1, 10 ** 9)  # half-width of the "on a step boundary" zones
 TOL_T = Fraction(1, 10 ** 6)  # s: tolerance on the delivered thrust duration
-T_MIN, T_MAX = 8, 2 ** 20
+T_MIN, T_MAX = 0, 2 ** 20
 DT_MIN, DT_MAX = 1, 3600
 BURN_MIN = Fraction(1, 1000)
 GAP_MIN = BURN_MIN  # O4: s2 - e1 >= 1e-3 s: touching burns (e1 == s2) are outside, see OUTSIDE
@@ -85,8 +85,7 @@ OUTSIDE = [
     "state-dependent thrust directions along the trajectory: NTW burns / spiral / plane-change are checked as callables (O2-callables: the rotation ntw2eci applied to the configured vector; "
     "ntw2eci itself is C04's subject); in O1 the finite maneuver runs with ntw2eci cut to the identity frame",
     "TwoBody dynamics: TwoBody._differentialEquation has no thrust term at all, so under two_body truth dynamics a finite burn is inert (observation; the property's anchors name SpecialPerturbations)",
-    f"times below {T_MIN} s: there numpy.spacing(t) < finfo.resolution, so the restart after an event lands on the same fpe_equals zero plateau again and again "
-    "(observed on the real code: a burn starting at scenario time 0.0 with the first propagation starting at 0.0 does not return - restarts advance by 5e-324 s)",
+    "times above 2^20 s (below, the whole range from 0 is inside since the restart-resolution fix: numpy.spacing is any value in (0, 2^-33])",
     "Julian-date rounding of the event times (C05/C01): handleEvent's conversion is executed in exact reals (JulianDate cut to a real number); in the real pipeline a nominally aligned burn end is "
     "~4e-5 s off the grid, i.e. it falls into the 'inside' / 'boundary' classes of this harness",
     "more than two consecutive steps; more than two finite thrusts in the queue; OVERLAPPING finite thrusts (Celestial keeps a single finite_thrust slot)",
@@ -257,7 +256,7 @@ class _World:
         if self.ntw is not None:
             ft["ntw2eci"] = self.ntw
         self.cms = [
-            shadow(CEL, solve_ivp=self.ivp, spacing=self.ivp.spacing),
+            shadow(CEL, solve_ivp=self.ivp, spacing=self.ivp.spacing, max=sym_max),
             shadow(SP, empty_like=_sym_empty_like, JulianDate=lambda x: x, julianDateToDatetime=lambda jd: None, ReductionParams=_Tok,
                    _getRotationMatrix=lambda jd, red: np.eye(3), nonSphericalAcceleration=lambda *args: g, Sun=_Tok, Earth=_Tok, norm=lambda v: SReal(1),
                    checkEarthCollision=lambda r: None),
